@@ -58,7 +58,9 @@ pub fn run_ops(sc: &mut ParameterNumberMessageScanner, ops: &[i64], obs: &mut Ve
         }
         let r = match op[0] {
             2 => region(|| {
-                sc.reset();
+                for _ in 0..=op[1] {
+                    sc.reset();
+                }
                 None
             }),
             // starting over with a scanner created through Default (in the model: a new scanner)
@@ -191,7 +193,11 @@ pub fn random_op(r: &mut Rng, nch: u64, v: &mut Vec<i64>) {
             let s = r.pick(&[128i64, 144, 160, 192, 208, 224]) + c;
             v.extend_from_slice(&[kind, s, r.pick(&PN_CNS), val]);
         }
-        0 => v.extend_from_slice(&[r.pick(&[2i64, 2, 8]), 0, 0, 0]),
+        0 => {
+            let k = r.pick(&[2i64, 2, 8]);
+            let n = if k == 2 { reset_repeat(r) } else { 0 };
+            v.extend_from_slice(&[k, n, 0, 0])
+        }
         1 => {
             let s = 128 + r.below(128) as i64;
             v.extend_from_slice(&[kind, s, r.below(128) as i64, r.below(128) as i64]);
@@ -208,8 +214,10 @@ pub fn random_history(r: &mut Rng, maxlen: u64, v: &mut Vec<i64>) -> usize {
     for _ in 0..len {
         random_op(r, nch, &mut ops);
     }
+    long_run(r, &mut ops);
+    let n = ops.len() / 4;
     v.extend(ops);
-    len as usize
+    n
 }
 
 fn boundary14(r: &mut Rng) -> i64 {
